@@ -14,8 +14,9 @@
      - the metadata update (apply_inventory_delta / _apply_index_changes);
      - the limbo clean-up (DiskTreeTransform.finalize).
    [run_with_fault inv_first g flt f0 inv0]: the operation selected by [flt]
-   raises, then the program's own handler runs.  [inv_first = false] is the
-   order of the current code (deletions BEFORE the metadata update). *)
+   raises, then the program's own handler runs.  [inv_first = true] is the
+   order of the code (metadata update, THEN the deletions); [false] is the order
+   before commit c37d45c, kept to document the defect it had. *)
 From Coq Require Import List String Bool Arith Lia NArith.
 Import ListNotations.
 Open Scope list_scope.
@@ -278,8 +279,8 @@ Definition run_fin (g : prog) (k : option nat) (e : errno) (f : fs) (tr : list e
   end.
 
 (* InventoryTreeTransform.apply / GitTreeTransform.apply.
-   inv_first = false: the code as it is (apply_deletions, THEN the metadata update);
-   inv_first = true : the metadata update first. *)
+   inv_first = true : the code as it is (metadata update, THEN apply_deletions);
+   inv_first = false: the order before c37d45c (apply_deletions first). *)
 Definition run_with_fault (inv_first : bool) (g : prog) (flt : fault) (f0 : fs) (inv0 : list path)
   : outcome :=
   let e := ferr flt in
